@@ -570,15 +570,39 @@ def _sep_locals(F, body, start, decimal_is_dot, names):
 
     interp = Interp(body, F, max_paths=64, max_len=300, call_hook=hook)
     paths = interp.run({}, start=start)
+
+    def charval(env, v, depth=0):
+        # a `char` (code point), a one-character &str, or a reference to either
+        if isinstance(v, int) and not isinstance(v, bool):
+            return v
+        if isinstance(v, tuple) and len(v) == 2 and v[0] == "str" and isinstance(v[1], str) and len(v[1]) == 1:
+            return ord(v[1])
+        if isinstance(v, tuple) and len(v) == 2 and v[0] == "ref" and isinstance(v[1], dict) and depth < 4:
+            pr = v[1].get("p") or []
+            if all(e[0] == "*" for e in pr):
+                return charval(env, env.get(v[1]["l"], UNKNOWN), depth + 1)
+        return None
+
     out = {}
+    if names is None:
+        # every local, by index
+        for p in paths:
+            if not isinstance(p.env, dict):
+                continue
+            for l, v in p.env.items():
+                c = charval(p.env, v)
+                if c is not None:
+                    out.setdefault(l, set()).add(c)
+        return out
     for n in names:
         ls = body.local_by_name(n)
         vals = set()
         for p in paths:
             for l in ls:
                 v = p.env.get(l, UNKNOWN) if isinstance(p.env, dict) else UNKNOWN
-                if isinstance(v, int) and not isinstance(v, bool):
-                    vals.add(v)
+                c = charval(p.env, v) if isinstance(p.env, dict) else None
+                if c is not None:
+                    vals.add(c)
         out[n] = vals
     return out
 
@@ -659,11 +683,14 @@ def _sep_rule(ck, F):
         hb = F.one(helper_q)
         for dot in (True, False):
             loc = "decimal '.'" if dot else "decimal ','"
-            names = [n for n in ("arg_separator", "arg_sep") if hb.local_by_name(n)]
-            vals = _sep_locals(F, hb, 0, dot, names) if names else {}
+            # the separator is the character-valued local the locale decides: the one whose value differs between the
+            # two kinds of locale (found by value, not by name)
+            mine = _sep_locals(F, hb, 0, dot, None)
+            other = _sep_locals(F, hb, 0, not dot, None)
             got = set()
-            for n in names:
-                got |= vals.get(n, set())
+            for l, vs in mine.items():
+                if hb.local_name(l) and len(vs) == 1 and len(other.get(l, ())) == 1 and vs != other[l]:
+                    got |= vs
             want = par["get_argument_separator_token"].get(dot)
             toks = set()
             for v in got:
